@@ -252,7 +252,7 @@ Section Conc.
         let '(more, evs) := tear_slot_events s b p i in
         (* the slot is emptied (nobody else can look: the lock is held until then, and no other handle
            exists); the data of a node that is torn down is dropped with its block *)
-        let dr := match slot_lookup (c_slots s) (i :: p), data_lookup (c_data s) (i :: p) with Some (ENode _), Some _ => 1%nat | _, _ => 0%nat end in
+        let dr := match data_lookup (c_data s) (i :: p) with Some _ => 1%nat | None => 0%nat end in
         let wl := match more with [] => c_wlock s | _ => (p, i) :: c_wlock s end in
         let s' := mkC (c_rc s) (slot_remove (c_slots s) (i :: p)) wl (c_next s) (c_live s) (c_freed s)
                       (data_remove (c_data s) (i :: p)) (c_torn s) (c_payload_drops s + dr) (c_threads s) in
